@@ -5,6 +5,7 @@ import (
 	"fmt"
 	"github.com/fabiolb/fabio/transport"
 	"log"
+	"math"
 	"net/url"
 	"reflect"
 	"sort"
@@ -219,10 +220,14 @@ func (r *Route) weighTargets() {
 	// how big is the fixed weighted traffic?
 	var nFixed int
 	var sumFixed float64
+	var maxFixed float64
 	for _, t := range r.Targets {
 		if t.FixedWeight > 0 {
 			nFixed++
 			sumFixed += t.FixedWeight
+			if t.FixedWeight > maxFixed {
+				maxFixed = t.FixedWeight
+			}
 		}
 	}
 
@@ -243,6 +248,19 @@ func (r *Route) weighTargets() {
 		scale = 1 / sumFixed
 	}
 
+	// when normalizing, work relative to the largest fixed weight so that
+	// neither huge weights (sum overflows to +Inf) nor denormal weights
+	// (1/sum overflows to +Inf) produce NaN or infinite weights
+	normalize := scale != 1.0 || math.IsInf(sumFixed, 1)
+	var sumRel float64
+	if normalize {
+		for _, t := range r.Targets {
+			if t.FixedWeight > 0 {
+				sumRel += t.FixedWeight / maxFixed
+			}
+		}
+	}
+
 	// compute the weight for the targets with dynamic weights
 	dynamic := (1 - sumFixed) / float64(len(r.Targets)-nFixed)
 	if dynamic < 0 {
@@ -253,6 +271,9 @@ func (r *Route) weighTargets() {
 	for _, t := range r.Targets {
 		if t.FixedWeight > 0 {
 			t.Weight = t.FixedWeight * scale
+			if normalize {
+				t.Weight = (t.FixedWeight / maxFixed) / sumRel
+			}
 		} else {
 			t.Weight = dynamic
 		}
